@@ -34,11 +34,9 @@ macro "rk" : tactic => `(tactic| repeat' (first
 theorem onErrorHandle_root (cfg : ECfg) (key depth savedLen : Nat) (ex : Exc) (s' s2 : RState)
     (h : onErrorHandle cfg key depth savedLen ex s' = some s2) : rootOf s2 = rootOf s' := by
   unfold onErrorHandle at h
-  split at h
-  · cases h
-  · simp only [Option.some.injEq] at h
-    subst h
-    rfl
+  simp only [Option.some.injEq] at h
+  subst h
+  rfl
 
 theorem rk_all (cfg : ECfg) : ∀ f,
     (∀ al node, RootKept (eval cfg al f node)) ∧
